@@ -3,7 +3,9 @@
 //! (in the transaction's auth zone, or popped out of it into named proofs), random signer sets,
 //! optional dropping of the signature proofs, optional preview with assume_all_signature_proofs;
 //! `mint` then succeeds or fails with AuthError::Unauthorized in the real engine.  The Coq model
-//! (Model/C08_Auth.v `verify_role_list`) is evaluated on the same auth zone description.
+//! (Model/C08_Auth.v `verify_call`) receives the CALL CHAIN and builds the auth zone itself (create_zone).
+//! Call shapes: manifest -> resource.mint; manifest -> account.withdraw -> vault.take; manifest -> vault.recall
+//! (direct access); manifest -> pool.contribute -> pool-unit resource.mint (two context changes).
 //! Direct oracle: the declarative meaning of the rule (require / amount-of / count-of / all-of /
 //! any-of and their composition) over the set of visible badges, evaluated in Rust without zone
 //! traversal order or short-circuiting.
@@ -37,6 +39,10 @@ const TP_GC: u64 = 2; // global caller = transaction processor blueprint
 const OTHER_GC: u64 = 4; // global caller = the badge account
 const MINTER: u64 = 5;
 const WITHDRAWER: u64 = 7;
+const RECALLER: u64 = 8;
+const POOL_MANAGER: u64 = 9;
+const POOL_PKG: u64 = 12;
+const POOL_GC: u64 = 13; // global caller = the pool component of the case
 const ACCOUNT_PKG: u64 = 6; // account package (direct caller of the vault in the deeper chain)
 
 #[derive(Clone, Debug, PartialEq)]
@@ -71,6 +77,7 @@ struct World {
     badges: [ResourceAddress; 4], // codes 1..4: FA (div 18, 100), FB (div 0, 10), NA (ids 1..3), NB (ids 1..2)
     secp: Vec<Secp256k1PublicKey>, // local id codes 0..2 under SIG_SECP
     ed: Ed25519PublicKey,          // local id code 0 under SIG_ED
+    pool_res: ResourceAddress,     // resource the per-case pools are created over (never used as a badge)
 }
 
 impl World {
@@ -95,9 +102,17 @@ impl World {
                 .build();
             badges.push(ledger.execute_manifest(m, vec![]).expect_commit(true).new_resource_addresses()[0]);
         }
+        let pool_res = {
+            let m = ManifestBuilder::new()
+                .lock_fee_from_faucet()
+                .create_fungible_resource(OwnerRole::None, true, 18, FungibleResourceRoles::default(), metadata!(), Some(dec(1000000 * UNIT)))
+                .try_deposit_entire_worktop_or_abort(account, None)
+                .build();
+            ledger.execute_manifest(m, vec![]).expect_commit(true).new_resource_addresses()[0]
+        };
         let secp: Vec<Secp256k1PublicKey> = (0..3).map(|_| ledger.new_key_pair().0).collect();
         let ed = ledger.new_ed25519_key_pair().0;
-        World { ledger, account, badges: [badges[0], badges[1], badges[2], badges[3]], secp, ed }
+        World { ledger, account, badges: [badges[0], badges[1], badges[2], badges[3]], secp, ed, pool_res }
     }
     fn res_addr(&self, code: u64) -> ResourceAddress {
         match code {
@@ -113,7 +128,7 @@ impl World {
         match res {
             SIG_SECP => NonFungibleGlobalId::from_public_key(&self.secp[id as usize]),
             SIG_ED => NonFungibleGlobalId::from_public_key(&self.ed),
-            PKG_RES => NonFungibleGlobalId::package_of_direct_caller_badge(if id == TP_PKG { TRANSACTION_PROCESSOR_PACKAGE } else if id == ACCOUNT_PKG { ACCOUNT_PACKAGE } else { RESOURCE_PACKAGE }),
+            PKG_RES => NonFungibleGlobalId::package_of_direct_caller_badge(if id == TP_PKG { TRANSACTION_PROCESSOR_PACKAGE } else if id == ACCOUNT_PKG { ACCOUNT_PACKAGE } else if id == POOL_PKG { POOL_PACKAGE } else { RESOURCE_PACKAGE }),
             GC_RES => {
                 if id == TP_GC {
                     NonFungibleGlobalId::global_caller_badge(GlobalCaller::PackageBlueprint(BlueprintId::new(
@@ -313,6 +328,8 @@ struct Over {
     rule: Rule,
     fallback: bool,
     via_account: bool,
+    /// 0 = as via_account says, 2 = direct vault recall, 3 = pool contribute
+    shape: u8,
     signers: Vec<u64>,
     ed_signer: bool,
     placements: Vec<Placement>,
@@ -327,7 +344,7 @@ struct Over {
 /// call shapes, proofs popped out of the auth zone, dropped signature proofs, owner fallback.
 fn boundary_cases() -> Vec<(String, Over)> {
     let k = |i: u64| Ron::NF(SIG_SECP, i);
-    let base = |rule: Rule| Over { rule, fallback: false, via_account: false, signers: vec![0], ed_signer: false, placements: vec![], drop_sigs: false, simulate: false };
+    let base = |rule: Rule| Over { rule, fallback: false, via_account: false, shape: 0, signers: vec![0], ed_signer: false, placements: vec![], drop_sigs: false, simulate: false };
     let prot = |b: Basic| Rule::Protected(Comp::Basic(b));
     let fa = |amt: i128, popped: bool| Placement { res: 1, amt, ids: vec![], popped };
     let na = |ids: Vec<u64>, popped: bool| Placement { res: 3, amt: ids.len() as i128 * UNIT, ids, popped };
@@ -420,6 +437,21 @@ fn boundary_cases() -> Vec<(String, Over)> {
         o.placements = vec![fa(UNIT - 1, false)];
         add("bnd_call_shapes", o);
     }
+    // direct vault access (recall) and a pool method (two context changes: the pool then mints pool units)
+    for shape in [2u8, 3u8] {
+        for r in [Ron::NF(PKG_RES, TP_PKG), Ron::NF(PKG_RES, ACCOUNT_PKG), Ron::NF(PKG_RES, POOL_PKG), Ron::NF(GC_RES, TP_GC), Ron::NF(GC_RES, OTHER_GC), k(0), k(1), Ron::Res(1), Ron::NF(3, 1)] {
+            let mut o = base(prot(Basic::Require(r)));
+            o.shape = shape;
+            o.placements = vec![fa(UNIT, false), na(vec![1], false)];
+            add("bnd_call_shapes_direct_pool", o);
+        }
+        for rule in [Rule::AllowAll, Rule::DenyAll, prot(Basic::AmountOf(UNIT, 1)), prot(Basic::CountOf(2, vec![k(0), Ron::NF(PKG_RES, TP_PKG)]))] {
+            let mut o = base(rule);
+            o.shape = shape;
+            o.placements = vec![fa(UNIT, false)];
+            add("bnd_call_shapes_direct_pool", o);
+        }
+    }
     v
 }
 
@@ -460,29 +492,39 @@ fn main() {
         //   direct:      manifest -> resource.mint            (role minter)
         //   via account: manifest -> account.withdraw -> vault.take  (role withdrawer of the resource; the vault's
         //                frame has the account's zone as parent and the account's global caller copied)
-        let via_account = match ov { Some(o) => o.via_account, None => rng.chance(1, 3) };
+        // 0 direct mint, 1 via account (vault.take), 2 direct vault access (vault.recall), 3 pool.contribute (+ inner pool-unit mint)
+        let shape: u8 = match ov {
+            Some(o) => if o.shape != 0 { o.shape } else if o.via_account { 1 } else { 0 },
+            None => match rng.below(20) { 0..=7 => 0, 8..=12 => 1, 13..=15 => 2, _ => 3 },
+        };
+        let via_account = shape == 1;
+        let fallback = fallback && shape != 3;
         // role table of the new resource: role = rule (owner = other), or the role falls to owner = rule
         let (role_def, owner_rule) = if fallback { (None, rule.clone()) } else { (Some(w.rule(&rule)), other.clone()) };
-        let roles = if via_account {
-            FungibleResourceRoles {
+        let roles = match shape {
+            1 => FungibleResourceRoles {
                 withdraw_roles: Some(WithdrawRoles { withdrawer: role_def, withdrawer_updater: Some(AccessRule::DenyAll) }),
                 ..Default::default()
-            }
-        } else {
-            FungibleResourceRoles {
+            },
+            2 => FungibleResourceRoles {
+                recall_roles: Some(RecallRoles { recaller: role_def, recaller_updater: Some(AccessRule::DenyAll) }),
+                ..Default::default()
+            },
+            _ => FungibleResourceRoles {
                 mint_roles: Some(MintRoles { minter: role_def, minter_updater: Some(AccessRule::DenyAll) }),
                 ..Default::default()
-            }
+            },
         };
+        let with_supply = shape == 1 || shape == 2;
         let mb = ManifestBuilder::new().lock_fee_from_faucet().create_fungible_resource(
             OwnerRole::Fixed(w.rule(&owner_rule)),
             true,
             18,
             roles,
             metadata!(),
-            if via_account { Some(dec(10 * UNIT)) } else { None },
+            if with_supply { Some(dec(10 * UNIT)) } else { None },
         );
-        let m = if via_account { mb.try_deposit_entire_worktop_or_abort(w.account, None).build() } else { mb.build() };
+        let m = if with_supply { mb.try_deposit_entire_worktop_or_abort(w.account, None).build() } else { mb.build() };
         let receipt = w.ledger.execute_manifest(m, vec![]);
         let created = match &receipt.result {
             TransactionResult::Commit(c) if matches!(c.outcome, TransactionOutcome::Success(_)) => c.new_resource_addresses()[0],
@@ -492,6 +534,20 @@ fn main() {
                 continue;
             }
         };
+        let mut pool: Option<ComponentAddress> = None;
+        if shape == 3 {
+            let badge = w.pool_res;
+            let rule_e = w.rule(&rule);
+            let ledger = &mut w.ledger;
+            match catch(std::panic::AssertUnwindSafe(|| ledger.create_one_resource_pool(badge, rule_e))) {
+                Ok((c, _)) => pool = Some(c),
+                Err(_) => {
+                    report.count("resource_creation_failed");
+                    continue;
+                }
+            }
+        }
+        let vault_of_created: Option<NodeId> = if shape == 2 { w.ledger.get_component_vaults(w.account, created).first().cloned() } else { None };
         // signers and proof placement
         let signers: Vec<u64> = match ov { Some(o) => o.signers.clone(), None => (0..3).filter(|_| rng.chance(2, 5)).collect() };
         let ed_signer = match ov { Some(o) => o.ed_signer, None => rng.chance(1, 5) };
@@ -564,19 +620,36 @@ fn main() {
         if drop_sigs {
             instrs.push(InstructionV1::DropAuthZoneSignatureProofs(DropAuthZoneSignatureProofs));
         }
-        instrs.push(if via_account {
-            InstructionV1::CallMethod(CallMethod {
+        match shape {
+            1 => instrs.push(InstructionV1::CallMethod(CallMethod {
                 address: ManifestGlobalAddress::Static(w.account.into()),
                 method_name: "withdraw".to_string(),
                 args: to_manifest_value_and_unwrap!(&(created, dec(UNIT))),
-            })
-        } else {
-            InstructionV1::CallMethod(CallMethod {
+            })),
+            2 => instrs.push(InstructionV1::CallDirectVaultMethod(CallDirectVaultMethod {
+                address: InternalAddress::new_or_panic(vault_of_created.expect("vault").into()),
+                method_name: "recall".to_string(),
+                args: to_manifest_value_and_unwrap!(&(dec(UNIT),)),
+            })),
+            3 => {
+                instrs.push(InstructionV1::CallMethod(CallMethod {
+                    address: ManifestGlobalAddress::Static(w.account.into()),
+                    method_name: "withdraw".to_string(),
+                    args: to_manifest_value_and_unwrap!(&(w.pool_res, dec(UNIT))),
+                }));
+                instrs.push(InstructionV1::TakeAllFromWorktop(TakeAllFromWorktop { resource_address: w.pool_res }));
+                instrs.push(InstructionV1::CallMethod(CallMethod {
+                    address: ManifestGlobalAddress::Static(pool.unwrap().into()),
+                    method_name: "contribute".to_string(),
+                    args: to_manifest_value_and_unwrap!(&(ManifestBucket(0),)),
+                }));
+            }
+            _ => instrs.push(InstructionV1::CallMethod(CallMethod {
                 address: ManifestGlobalAddress::Static(created.into()),
                 method_name: "mint".to_string(),
                 args: to_manifest_value_and_unwrap!(&(dec(UNIT),)),
-            })
-        });
+            })),
+        }
         let none: Option<ResourceOrNonFungible> = None;
         instrs.push(InstructionV1::CallMethod(CallMethod {
             address: ManifestGlobalAddress::Static(w.account.into()),
@@ -615,7 +688,7 @@ fn main() {
                 TransactionResult::Commit(c) => match &c.outcome {
                     TransactionOutcome::Success(_) => Outcome::Authorized,
                     TransactionOutcome::Failure(RuntimeError::SystemModuleError(SystemModuleError::AuthError(AuthError::Unauthorized(u))))
-                        if u.fn_identifier.ident == (if via_account { "take" } else { "mint" }) =>
+                        if u.fn_identifier.ident == ["mint", "take", "recall", "contribute"][shape as usize] =>
                     {
                         Outcome::Unauthorized
                     }
@@ -655,32 +728,41 @@ fn main() {
             coq_list(vres.iter().map(|r| r.to_string())),
             coq_list(vnf.iter().map(|g| format!("({}, {})", g.0, g.1))),
         );
-        // direct: callee zone = (direct caller package TP, global caller TP with chain [transaction zone], no parent)
-        // via account: the vault's zone = (direct caller package ACCOUNT, global caller copied from the account's
-        //              zone = TP with chain [transaction zone], parent chain = [account zone (empty)])
-        let zone_coq = if via_account {
-            format!(
-                "{{| az_pkg := Some {}; az_gc := Some ({}, false, [{}]); az_parent := [{{| z_proofs := []; z_vres := []; z_vnf := [] |}}] |}}",
-                ACCOUNT_PKG, TP_GC, tp_zone
-            )
-        } else {
-            format!("{{| az_pkg := Some {}; az_gc := Some ({}, false, [{}]); az_parent := [] |}}", TP_PKG, TP_GC, tp_zone)
+        // the call chain, newest call first (Model/C08_Auth.v `call`): who calls (actor), the content of the
+        // caller's auth zone at that moment, what is called; the zone is built by the model (create_zone)
+        let root = "(CRoot, {| z_proofs := []; z_vres := []; z_vnf := [] |}, RFunction)".to_string();
+        let empty = "{| z_proofs := []; z_vres := []; z_vnf := [] |}";
+        let tp_call = |recv: &str| format!("(CFunction {} {}, {}, {})", TP_GC, TP_PKG, tp_zone, recv);
+        let chain_coq = match shape {
+            1 => format!("[(CMethod {} (OGlobal {}), {}, RMethod false false); {}; {}]", ACCOUNT_PKG, OTHER_GC, empty, tp_call("RMethod true false"), root),
+            2 => format!("[{}; {}]", tp_call("RMethod false true"), root),
+            _ => format!("[{}; {}]", tp_call("RMethod true false"), root),
         };
-        let role_key = if via_account { WITHDRAWER } else { MINTER };
+        let role_key = [MINTER, WITHDRAWER, RECALLER, POOL_MANAGER][shape as usize];
         let roles_coq = if fallback { "[]".to_string() } else { format!("[({}, {})]", role_key, rule_coq(&rule)) };
         let observed = match &outcome {
             Outcome::Authorized => "OAuthorized",
             Outcome::Unauthorized => "OUnauthorized",
             Outcome::Other(_) => "OOther",
         };
-        cw.push(format!("({}, (77, {}, {}, [{}]), {})", zone_coq, roles_coq, rule_coq(&owner_rule), role_key, observed));
+        cw.push(format!("({}, (77, {}, {}, [{}]), {})", chain_coq, roles_coq, rule_coq(&owner_rule), role_key, observed));
+        if shape == 3 && outcome == Outcome::Authorized {
+            // the pool then mints pool units: a second global context change; the pool-unit resource's minter rule
+            // is require(global_caller(pool)); the transaction's proofs and signatures are behind the barrier
+            report.count("pool_inner_mint_checked");
+            cw.push(format!(
+                "([(CMethod {} (OGlobal {}), {}, RMethod true false); {}; {}], (78, [({}, Protected (Basic (Require (RNF ({}, {})))))], DenyAll, [{}]), OAuthorized)",
+                POOL_PKG, POOL_GC, empty, tp_call("RMethod true false"), root, MINTER, GC_RES, POOL_GC, MINTER
+            ));
+        }
 
         // oracle: declarative meaning over everything visible
         let mut vis = Visible { vnf: vnf.iter().cloned().collect(), vres: vres.iter().cloned().collect(), proofs: visible_proofs.clone() };
         vis.vnf.insert((PKG_RES, if via_account { ACCOUNT_PKG } else { TP_PKG }));
+        report.count(["shape_direct_mint", "shape_via_account", "shape_direct_vault", "shape_pool"][shape as usize]);
         vis.vnf.insert((GC_RES, TP_GC));
         let expect = vis.rule(&rule);
-        let canon = format!("{}|{}|{:?}|{:?}|{}|{}|{}|{}", rule_coq(&rule), fallback, signers, placements, ed_signer, drop_sigs, simulate, via_account);
+        let canon = format!("{}|{}|{:?}|{:?}|{}|{}|{}|{}", rule_coq(&rule), fallback, signers, placements, ed_signer, drop_sigs, simulate, shape);
         report.case(&canon, matches!(rule, Rule::Protected(_)));
         report.count(match &outcome {
             Outcome::Authorized => "authorized",
@@ -719,7 +801,10 @@ fn main() {
     report.floor("authorized", (args.cases as u64) / 8);
     report.floor("unauthorized", (args.cases as u64) / 8);
     report.floor("owner_fallback", (args.cases as u64) / 10);
-    report.floor("via_account_vault_chain", (args.cases as u64) / 6);
+    report.floor("via_account_vault_chain", (args.cases as u64) / 8);
+    report.floor("shape_direct_vault", (args.cases as u64) / 12);
+    report.floor("shape_pool", (args.cases as u64) / 10);
+    report.floor("pool_inner_mint_checked", (args.cases as u64) / 40);
     let mut per_class: std::collections::BTreeMap<String, u64> = Default::default();
     for (c, _) in &bnd {
         *per_class.entry(c.clone()).or_insert(0) += 1;
